@@ -51,6 +51,12 @@ def gen_scenario(rnd, i, stop):
         dropproxy = True
     sc = {"id": i, "seed": rnd.randrange(1 << 30), "msgs": msgs, "kinds": kinds, "progs": progs,
           "dropproxy": dropproxy, "presend": [rnd.choice([0, 0, 1, m]) for m in msgs], "stop": stop}
+    if i % 8 == 5 and n >= 2:
+        # the consumer of one crossbeam-forwarding route drops its receiver at once; the sender goes on
+        k = rnd.randrange(n)
+        sc["kinds"][k] = "xbeam"
+        sc["msgs"][k] = max(2, sc["msgs"][k] % 40)
+        sc["xdrop"] = [j == k for j in range(n)]
     if i % 8 == 7:
         # more routes than the receiver set's events buffer holds (10), all ready in the same batch: every route is
         # registered first; then route 1's slow handler keeps the router busy while all the others receive traffic
@@ -172,6 +178,8 @@ def harness_judge(sc, o):
     stopped = sc["stop"] != "none"
     for rt in o["routes"]:
         r = rt["r"]
+        if sc.get("xdrop") and sc["xdrop"][r - 1]:
+            continue        # its consumer is gone: nothing is owed there
         n = sc["msgs"][r - 1]
         got = rt["calls"] if sc["kinds"][r - 1] == "cb" else (
             sum([a["got"] for a in o["after_shutdown"] if a["r"] == r], []) + rt["xgot"])
